@@ -10,7 +10,7 @@ connection is closed (loseConnection, half-close, abortConnection; either side).
 """
 import random
 
-from zope.interface import implementer
+from zope.interface import directlyProvides, implementer
 
 from twisted.internet import error, interfaces, protocol
 
@@ -25,21 +25,37 @@ BATCH = 30
 COMPONENTS = {"real": ["twisted.internet.selectreactor/pollreactor/epollreactor/asyncioreactor (doIteration, _doReadOrWrite)", "twisted.internet.posixbase (_disconnectSelectable, _PollLikeMixin, waker)",
                        "twisted.internet.base.ReactorBase (timed calls)", "twisted.internet.tcp (Port, Server, Client, Connection, Connector)", "twisted.internet.abstract.FileDescriptor"],
               "stub": ["kernel TCP sockets and select/poll/epoll/selector syscalls (detsim.kernel model: bounded buffers, in-flight bytes, FIN after data, RST)", "wall clock (simulated)"]}
-RULE = ("run = one simulated loopback connection on a tape-chosen reactor: listen, connect, both sides write tape-chosen patterns (0 B..2 MiB, writeSequence, timer-delayed writes), "
+RULE = ("run = one to three simulated loopback connections on a tape-chosen reactor; for each: connect to the listening port, both sides write tape-chosen patterns (0 B..2 MiB, writeSequence, timer-delayed writes), "
         "then one of loseConnection / loseWriteConnection (+ peer close) / abortConnection from either side at a tape-chosen moment; socket buffers 1 B..64 KiB; "
         "writeSequence(list): the list stays the application's - after the call it is cleared / appended to / edited / reversed, refilled and passed again, passed to the OTHER "
         "connection's transport, or broadcast to both transports in one turn followed by a private write (the model records what the list held at each call); "
         "half-close with half-closeable protocols: the side that receives the FIN (often with output still queued over several reactor turns) either keeps writing and then "
         "calls loseConnection (active), leaves its transport alone from then on (passive), or half-closes too at a moment of its own, before or after the FIN, the protocols "
-        "finishing the connection once both halves are gone (halfclose); whenever nothing moves any more (no kernel event, idle reactor, no timer) every byte given to a still "
+        "finishing the connection once both halves are gone (halfclose); "
+        "1-3 connections per run, one after the other through the same port, reactor and kernel, each with knobs of its own (half-closeable or not, way of closing, closer, "
+        "peer behaviour); per side the object given to the transport is the application's protocol or a forwarding wrapper around it (the pattern of endpoints' and policies' "
+        "wrappers): all wrappers of a run are instances of ONE class and provide IHalfCloseableProtocol per instance, exactly when the wrapped protocol does; "
+        "applications that stop reading (pauseProducing from connectionMade, from dataReceived or from outside) and resume at a moment of their own or only when nothing moves "
+        "any more; write sizes at the kernel's capacity (exactly what send buffer + peer's receive buffer still take, one more, one less), mostly towards a peer that is not "
+        "reading, sometimes as the last write; close-then-timeout: after loseConnection / loseWriteConnection the closer calls abortConnection() from a timer set at the close "
+        "(0 s, 0.5 s, 2 s - the latter fire when everything has come to rest) or at a tape-chosen later moment - before or after the orderly close has finished, with "
+        "the transport's buffer empty or not, the socket writable or not, the peer reading or not; once abortConnection() has been issued on a connection whose protocol has "
+        "not been told yet, that protocol is told ConnectionAborted without any help from the peer; whenever nothing moves any more (no kernel event, idle reactor, no timer) every byte given to a still "
         "open transport must have reached the other protocol - before the scenario pushes on; "
         "non-trivial = at least one partial or short send/recv or EAGAIN occurred and data flowed")
 ASSUMPTIONS = ["the property names real loopback TCP; the claim is over the kernel MODEL (a real kernel cannot be made replayable): FIFO per direction, FIN ordered behind data, RST discards in-flight data",
                "close() with unread input is modelled as FIN (Linux would send RST); no listen backlog limit",
                "clean ConnectionDone on both sides is demanded only in runs where no RST was generated (no data arrived at an already closed socket)",
                "delivery of written bytes may not depend on the application touching the transport again: the stalled-with-unsent-output clause is evaluated only when no kernel event is "
-               "enabled, three further reactor turns move nothing, no timer is pending, neither protocol has had connectionLost, no RST occurred and no abortConnection was issued",
+               "enabled, three further reactor turns move nothing, no timer is due (timers in the future - delayed writes, the closer's timeout - do not count: the check is made before "
+               "simulated time jumps to them), neither protocol has had connectionLost, no RST occurred and no abortConnection was issued",
                "a list passed to writeSequence() remains the caller's object: what the call writes is the list's content at the time of the call",
+               "abortConnection() on a transport whose protocol has not had connectionLost ends the connection by itself: at rest (no kernel event enabled, three further reactor turns "
+               "move nothing, no timer due) that protocol must have been told, with ConnectionAborted; the peer owes nothing to this (it may have stopped reading for good)",
+               "an application that has paused reading is owed no delivery while that lasts, nor is one that has called loseConnection() and whose close is waiting for a peer that "
+               "has paused reading (the stalled-with-unsent-output clause skips that direction)",
+               "whether a protocol gets half-close notifications is a matter of the OBJECT handed to the transport (zope.interface per-instance declarations count), not of its class",
+               "RSTs are attributed per connection of a run (earlier connections' resets do not soften a later connection's clauses)",
                "both sides half-closing is exercised with half-closeable protocols only (for any other protocol the peer's FIN ends the connection and discards queued output, so no delivery is demanded)"]
 LEVEL_NOTE = ("Trusted: the kernel model (detsim/kernel.py; readiness table in DESIGN.md A.4), the scenario oracle. Real code: the four reactors, posixbase, base, tcp, abstract. "
               "A violation seen only on the model must be confirmed against real loopback sockets before it is believed.")
@@ -68,11 +84,24 @@ class Rec(protocol.Protocol):
             # newly written data is parked instead of being merged into the buffer that is being sent
             self.transport.SEND_LIMIT = sl
         self.sim.event(self.name, "connectionMade")
+        if self.st.get("born_paused") == self.name:
+            # not ready for input yet: reading is paused from the start
+            self.st["paused"][self.name] = True
+            self.sim.probe("pause_reading_from_connectionMade")
+            self.sim.event(self.name, "pause-read", "in-connectionMade")
+            self.transport.pauseProducing()
 
     def dataReceived(self, data):
         if self.lost:
             self.data_after_lost += 1
         self.got += data
+        if self.st.get("pause_armed") == self.name:
+            # back-pressure the usual way: the application stops its input from inside dataReceived
+            self.st["pause_armed"] = None
+            self.st["paused"][self.name] = True
+            self.sim.probe("pause_reading_from_dataReceived")
+            self.sim.event(self.name, "pause-read", "in-dataReceived")
+            self.transport.pauseProducing()
         if self.st.get("armed") and self.name == self.st.get("closer"):
             # the application closes from inside dataReceived, with output still pending
             self.st["armed"] = False
@@ -97,6 +126,7 @@ class HalfRec(Rec):
         # both halves gone (we half-closed earlier) or we were told to: a half-closeable
         # protocol has to finish the connection itself
         if self.st.get("close_on_read_lost") or self.write_lost:
+            self.st["lose_called"].add(self.name)
             self.transport.loseConnection()
 
     def writeConnectionLost(self):
@@ -105,7 +135,45 @@ class HalfRec(Rec):
         # the peer half-closed first and now our own half-close is complete: both halves are gone
         if self.read_lost:
             self.sim.probe("both_halves_lost_write_last")
+            self.st["lose_called"].add(self.name)
             self.transport.loseConnection()
+
+
+def _wrapper_class():
+    """A protocol wrapper in the style of endpoints._WrappingProtocol / policies.ProtocolWrapper: the object the transport talks
+    to forwards everything to the application's protocol, and an INSTANCE provides IHalfCloseableProtocol exactly when the
+    protocol it wraps does.  So objects of this one class differ in what they provide.  A fresh class per run: whatever the
+    code under test may remember about the class cannot travel from one run to the next (runs stay replayable)."""
+
+    class Wrap(protocol.Protocol):
+        def __init__(self, inner):
+            self.inner = inner
+            if interfaces.IHalfCloseableProtocol.providedBy(inner):
+                directlyProvides(self, interfaces.IHalfCloseableProtocol)
+
+        def makeConnection(self, transport):
+            self.connected = 1
+            self.transport = transport
+            self.inner.makeConnection(transport)
+
+        def dataReceived(self, data):
+            self.inner.dataReceived(data)
+
+        def connectionLost(self, reason):
+            self.connected = 0
+            self.inner.connectionLost(reason)
+
+        def readConnectionLost(self):
+            self.inner.readConnectionLost()
+
+        def writeConnectionLost(self):
+            self.inner.writeConnectionLost()
+
+    return Wrap
+
+
+def _rst_count(sim):
+    return sum(v for k, v in sim.faults.items() if k.startswith("rst"))
 
 
 def run(sim):
@@ -113,72 +181,132 @@ def run(sim):
     sndbuf = sim.draw_choice([65536, 1, 7, 64, 1024], "sndbuf")
     rcvbuf = sim.draw_choice([65536, 1, 7, 64, 1024], "rcvbuf")
     bufsz = sim.draw_choice([0, 16, 300], "bufferSize")
-    half = sim.draw_bool(0.5, "halfcloseable")
     send_limit = sim.draw_choice([0, 0, 1, 4, 50, 4096], "SEND_LIMIT")   # 0 = the default (128 KiB)
-    closing = sim.draw_choice(["lose", "halfclose", "abort"], "closing")
-    closer = sim.draw_choice(["C", "S"], "closer")
-    oneway = sim.draw_bool(0.45, "oneway")   # only the closing side writes (so no RST can be provoked by the peer's data)
-    # what the side that RECEIVES the half-close does afterwards:  active = keeps writing, then loseConnection();
-    # passive = leaves its transport alone once it has seen the FIN (the scenario closes it only when nothing moves any more);
-    # halfclose = half-closes too, at a moment of its own (before or after it sees the FIN), and never calls loseConnection()
-    # from outside: the protocols finish the connection when both halves are gone.  (Only for half-closeable protocols: for
-    # any other protocol the peer's FIN is the end of the connection, queued output included.)
-    peer_mode = sim.draw_choice(["active", "passive", "halfclose"], "peer_after_halfclose") if closing == "halfclose" and half else "active"
+    # connections of one run: made one after the other through the same listening port, on the same reactor and kernel
+    nconn = sim.draw_weighted([(1, 6), (2, 3), (3, 1)], "connections")
     unit = min(sndbuf, rcvbuf, bufsz or 65536, send_limit or 65536)   # bytes moved per syscall at best
-    maxtotal = min(sim.draw_choice([2000, 200000, 2000000], "maxtotal"), max(150, unit * 120))
-    sim.config = {"reactor": kind, "sndbuf": sndbuf, "rcvbuf": rcvbuf, "bufferSize": bufsz, "half": half, "closing": closing, "closer": closer, "maxtotal": maxtotal, "oneway": oneway, "SEND_LIMIT": send_limit, "peer_mode": peer_mode}
+    sim.config = {"reactor": kind, "sndbuf": sndbuf, "rcvbuf": rcvbuf, "bufferSize": bufsz, "SEND_LIMIT": send_limit, "connections": []}
     now = [0.0]
     kern = K.Kernel(sim, sndbuf=sndbuf, rcvbuf=rcvbuf)
     kern.spurious_p = sim.draw_choice([0.0, 0.0, 0.05], "spurious_p")
-    patt = {"C": random.Random(sim.draw_int(0, 10**6, "pattC")).randbytes(maxtotal + 10),
-            "S": random.Random(sim.draw_int(0, 10**6, "pattS")).randbytes(maxtotal + 10)}
-    # a half-closeable protocol that sees the peer's FIN after a full close must close itself
-    st = {"oneway": oneway, "closer": closer, "armed": False, "bufferSize": bufsz, "close_on_read_lost": closing != "halfclose", "SEND_LIMIT": send_limit, "peer_mode": peer_mode}
-    protos = {}
-    cls = HalfRec if half else Rec
+    Wrap = _wrapper_class()
 
     class SF(protocol.Factory):
+        cx = None
+
         def buildProtocol(self, addr):
-            p = cls(sim, "S", st)
-            protos["S"] = p
-            return p
+            return self.cx["build"]("S")
 
     class CF(protocol.ClientFactory):
         failed = None
 
+        def __init__(self, cx):
+            self.cx = cx
+
         def buildProtocol(self, addr):
-            p = cls(sim, "C", st)
-            protos["C"] = p
-            return p
+            return self.cx["build"]("C")
 
         def clientConnectionFailed(self, connector, reason):
             self.failed = reason
+
+    def connection(index):
+        """The knobs of one connection (drawn when it is about to be made) and its protocol objects."""
+        half = sim.draw_bool(0.5, "halfcloseable")
+        closing = sim.draw_choice(["lose", "halfclose", "abort"], "closing")
+        closer = sim.draw_choice(["C", "S"], "closer")
+        oneway = sim.draw_bool(0.45, "oneway")   # only the closing side writes (so no RST can be provoked by the peer's data)
+        # what the side that RECEIVES the half-close does afterwards:  active = keeps writing, then loseConnection();
+        # passive = leaves its transport alone once it has seen the FIN (the scenario closes it only when nothing moves any more);
+        # halfclose = half-closes too, at a moment of its own (before or after it sees the FIN), and never calls loseConnection()
+        # from outside: the protocols finish the connection when both halves are gone.  (Only for half-closeable protocols: for
+        # any other protocol the peer's FIN is the end of the connection, queued output included.)
+        peer_mode = sim.draw_choice(["active", "passive", "halfclose"], "peer_after_halfclose") if closing == "halfclose" and half else "active"
+        maxtotal = min(sim.draw_choice([2000, 200000, 2000000], "maxtotal"), max(150, unit * 120))
+        # the object handed to the transport is the application's protocol itself or a wrapper around it (per side)
+        wrapped = {"C": sim.draw_bool(0.4, "wrapC"), "S": sim.draw_bool(0.4, "wrapS")}
+        # an application that stops reading for a while (pauseProducing): random = resumes at a moment of its own;
+        # hold = resumes only when nothing moves any more
+        stall = sim.draw_weighted([("none", 3), ("random", 1), ("hold", 1)], "stall")
+        born_paused = sim.draw_choice([None, "C", "S"], "born_paused") if stall != "none" else None
+        # close-then-timeout idiom: the side that closed in an orderly way gives up waiting and calls abortConnection(),
+        # from a timer it set when it closed, or at a tape-chosen later moment
+        escalate = sim.draw_weighted([("none", 4), ("timer", 2), ("op", 1)], "escalate") if closing != "abort" else "none"
+        patt = {"C": random.Random(sim.draw_int(0, 10**6, "pattC")).randbytes(maxtotal + 10),
+                "S": random.Random(sim.draw_int(0, 10**6, "pattS")).randbytes(maxtotal + 10)}
+        # a half-closeable protocol that sees the peer's FIN after a full close must close itself
+        st = {"oneway": oneway, "closer": closer, "armed": False, "bufferSize": bufsz, "close_on_read_lost": closing != "halfclose", "SEND_LIMIT": send_limit,
+              "peer_mode": peer_mode, "paused": {"C": False, "S": False}, "pause_armed": None, "lose_called": set(), "born_paused": born_paused}
+        protos = {}
+        cls = HalfRec if half else Rec
+
+        def build(side):
+            p = cls(sim, side, st)
+            protos[side] = p
+            if wrapped[side]:
+                sim.probe("protocol_behind_wrapper")
+                return Wrap(p)
+            return p
+
+        cfgd = {"half": half, "closing": closing, "closer": closer, "maxtotal": maxtotal, "oneway": oneway, "peer_mode": peer_mode,
+                "wrapped": "".join(x for x in "CS" if wrapped[x]), "stall": stall, "born_paused": born_paused, "escalate": escalate}
+        sim.config["connections"].append(cfgd)
+        cx = dict(cfgd, index=index, st=st, protos=protos, patt=patt, build=build, sndbuf=sndbuf, rcvbuf=rcvbuf)
+        cx["cf"] = CF(cx)
+        return cx
 
     r = None
     with R.installed(kern):
         try:
             r = R.make_reactor(kind, kern, lambda: now[0])
             with sim.guard("reactor-raised", kind):
-                _drive(sim, kind, kern, r, now, patt, protos, SF(), CF(), closing, closer, half, maxtotal, st)
+                sf = SF()
+                port = r.listenTCP(0, sf, interface="127.0.0.1")
+                seen = set()
+                for index in range(nconn):
+                    cx = connection(index)
+                    sf.cx = cx
+                    if index:
+                        sim.probe("further_connection_in_one_run")
+                        sim.event("connection", index)
+                    if cx["wrapped"]:
+                        seen.add(cx["half"])
+                        if len(seen) == 2:
+                            sim.probe("wrapper_class_with_and_without_halfclose")
+                    _drive(sim, kind, kern, r, now, port, cx)
+                # stop listening, let the port close
+                port.stopListening()
+                for _ in range(5):
+                    R.iterate(r)
+                leaked = [s.fd for s in kern.leaked()]
+                sim.check("no-fd-leak", not leaked, kind, "sockets still open in the kernel model at the end: %r" % leaked)
         finally:
             if r is not None:
                 R.teardown(r)
     sim.sim_time += now[0]
 
 
-def _drive(sim, kind, kern, r, now, patt, protos, sf, cf, closing, closer, half, maxtotal, st):
-    port = r.listenTCP(0, sf, interface="127.0.0.1")
+def _drive(sim, kind, kern, r, now, port, cx):
+    closing, closer, half, maxtotal, st, protos, patt, cf = cx["closing"], cx["closer"], cx["half"], cx["maxtotal"], cx["st"], cx["protos"], cx["patt"], cx["cf"]
+    stall, escalate = cx["stall"], cx["escalate"]
     addr = port.getHost()
     port_addr = ("127.0.0.1", addr.port)
+    rst_before = _rst_count(sim)        # (RSTs of earlier connections of this run say nothing about this one)
     r.connectTCP("127.0.0.1", addr.port, cf)
     written = {"C": 0, "S": 0}          # bytes handed to each side's transport so far
     sent = {"C": bytearray(), "S": bytearray()}   # reference model: those bytes, in call order
     cursor = {"C": 0, "S": 0}           # next unused offset of each side's pattern
     st["written"] = written
     written_at_close = {}
-    state = {"closed_by": None, "phase": "open", "peer_closed": False, "timer_writes": 0, "sent": sent, "peer_mode": st["peer_mode"]}
+    # aborted: the side whose abortConnection() was issued before its protocol had been told of the loss
+    state = {"closed_by": None, "phase": "open", "peer_closed": False, "timer_writes": 0, "sent": sent, "peer_mode": st["peer_mode"], "aborted": None,
+             "rst_before": rst_before}
     other = {"C": "S", "S": "C"}
     app = {"kept": None}                # the application's own chunk list that it last passed to writeSequence(): [list, model of its content, side]
+    paused = st["paused"]               # sides whose application has paused its transport's reading
+    pauses = {"C": 0, "S": 0}
+
+    def rst_seen():
+        return _rst_count(sim) > rst_before
 
     def take(side, n):
         if cursor[side] + n > len(patt[side]):
@@ -308,10 +436,15 @@ def _drive(sim, kind, kern, r, now, patt, protos, sf, cf, closing, closer, half,
             return
         state["closed_by"] = side
         written_at_close[side] = written[side]
+        sock0 = p.transport.getHandle()
+        if written[side] == sock0.sent_total and not kern.writable(sock0):
+            sim.probe("close_with_all_output_in_full_kernel_buffers")
         sim.event(side, closing)
         if closing == "lose":
+            st["lose_called"].add(side)
             p.transport.loseConnection()
         elif closing == "abort":
+            state["aborted"] = side
             p.transport.abortConnection()
         else:
             p.transport.loseWriteConnection()
@@ -320,7 +453,81 @@ def _drive(sim, kind, kern, r, now, patt, protos, sf, cf, closing, closer, half,
                 state["closer_also_lost"] = True
                 sim.event(side, "lose-after-own-halfclose")
                 sim.probe("lose_after_own_halfclose")
+                st["lose_called"].add(side)
                 p.transport.loseConnection()
+        if escalate == "timer":
+            # close, and do not wait for ever: abortConnection() from a timer set now
+            r.callLater(sim.draw_choice([2.0, 0, 0.5], "abort_timeout"), abort_now, "timer")
+
+    def abort_now(how):
+        """The closer gives up on its orderly close (still pending or not) and aborts."""
+        side = closer
+        p = protos.get(side)
+        if p is None or state["aborted"] or state.get("abort_called"):
+            return
+        state["abort_called"] = True
+        sim.event(side, "abort-after-" + closing, how)
+        if p.lost:
+            # the orderly close was quicker: abortConnection() on a finished connection changes nothing
+            sim.probe("abort_after_connectionLost")
+        else:
+            state["aborted"] = side
+            sim.fault("orderly_close_escalated_to_abort")
+            sock = p.transport.getHandle()
+            if written[side] == sock.sent_total:
+                sim.probe("escalated_with_transport_buffer_empty")
+                if not kern.writable(sock):
+                    sim.probe("escalated_with_all_output_in_full_kernel_buffers")
+            if paused[other[side]]:
+                sim.probe("escalated_while_peer_not_reading")
+        p.transport.abortConnection()
+
+    def pause_read(side, inside):
+        pauses[side] += 1
+        if inside:
+            st["pause_armed"] = side
+            return
+        paused[side] = True
+        sim.event(side, "pause-read")
+        sim.probe("pause_reading")
+        protos[side].transport.pauseProducing()
+
+    def resume_read(side, why):
+        paused[side] = False
+        if st["pause_armed"] == side:
+            st["pause_armed"] = None
+        if protos[side].lost:
+            return
+        sim.event(side, "resume-read", why)
+        sim.probe("resume_reading/" + why)
+        protos[side].transport.resumeProducing()
+
+    def can_pause():
+        if stall == "none" or state["aborted"]:
+            return []
+        return [x for x in ("C", "S") if not paused[x] and st["pause_armed"] != x and pauses[x] < 3 and not protos[x].lost]
+
+    def kernel_room(side):
+        """How many more bytes the kernel would take from this side right now without the peer reading (its send buffer and the
+        peer's receive buffer), less what the transport still holds: the write of that size ends exactly at 'everything accepted,
+        socket not writable'."""
+        sock = protos[side].transport.getHandle()
+        return (sock.sndbuf - len(sock.wire)) + (sock.peer.rcvbuf - len(sock.peer.rx)) - (written[side] - sock.sent_total)
+
+    def pick_size(side, choices):
+        """A size from the list, or - a boundary of its own, above all towards a peer that has stopped reading - exactly as much as
+        the kernel will still take (one more, one less); sometimes that is the last thing the applications write."""
+        n = sim.draw_choice(choices, "size")
+        if can_write(side) and sim.draw_bool(0.5 if paused[other[side]] else 0.1, "size_at_kernel_capacity"):
+            room = kernel_room(side) + sim.draw_weighted([(0, 2), (1, 1), (-1, 1)], "off")
+            if room > 0:
+                sim.probe("write_sized_to_kernel_capacity")
+                if paused[other[side]]:
+                    sim.probe("write_sized_to_kernel_capacity/peer_not_reading")
+                    if sim.draw_bool(0.5, "nothing_more_to_write"):
+                        state["last_write"] = True
+                return room
+        return n
 
     def peer_close():
         side = other[closer]
@@ -330,6 +537,7 @@ def _drive(sim, kind, kern, r, now, patt, protos, sf, cf, closing, closer, half,
         state["peer_closed"] = True
         written_at_close[side] = written[side]
         sim.event(side, "lose-after-halfclose")
+        st["lose_called"].add(side)
         p.transport.loseConnection()
 
     def peer_halfclose():
@@ -344,24 +552,42 @@ def _drive(sim, kind, kern, r, now, patt, protos, sf, cf, closing, closer, half,
         sim.probe("both_sides_halfclose")
         p.transport.loseWriteConnection()
 
+    def timers_due():
+        return any(dc.getTime() <= now[0] for dc in r.getDelayedCalls())
+
     def stalled():
         """Nothing moves any more (no kernel event enabled, the reactor idle, no timer).  Whatever an open transport was
         given must by now have reached the other protocol: delivery may not depend on the application touching the
         transport again.  Returns True when the situation was not quiescent after all."""
-        if closing == "abort" and state["closed_by"]:
-            return False
         for x in ("C", "S"):
             px, py = protos.get(x), protos.get(other[x])
             if px is None or py is None:
                 return False
+        if state["aborted"]:
+            # abortConnection() ends the connection at once, whatever the peer and the kernel buffers are doing: the aborting
+            # side's protocol must have been told by now (nothing is in flight, the reactor is idle, no timer is pending)
+            pa = protos[state["aborted"]]
+            if not pa.lost:
+                for _ in range(3):
+                    R.iterate(r)
+                if kern.enabled() or timers_due() or pa.lost:
+                    return True
+                sim.fail("aborted-connection-reported", "%s/%s" % (kind, closing),
+                         "%s called abortConnection() (after %s), nothing is in flight or scheduled, and its connectionLost has not been called (peer reading paused: %s)"
+                         % (state["aborted"], closing, paused[other[state["aborted"]]]))
+            return False
         for x in ("C", "S"):
             px, py = protos[x], protos[other[x]]
-            if any(k.startswith("rst") for k in sim.faults) or px.lost or py.lost or len(py.got) == written[x]:
+            if rst_seen() or px.lost or py.lost or len(py.got) == written[x]:
                 continue
+            if paused[other[x]]:
+                continue    # the receiving application has stopped reading: nothing is owed to it until it resumes
+            if other[x] in st["lose_called"] and paused[x]:
+                continue    # the receiver has called loseConnection() (it reads no more) and its close is held up by x, which is not reading
             # make sure: a few more turns of the reactor
             for _ in range(3):
                 R.iterate(r)
-            if kern.enabled() or r.getDelayedCalls() or px.lost or py.lost or len(py.got) == written[x]:
+            if kern.enabled() or timers_due() or px.lost or py.lost or len(py.got) == written[x]:
                 return True
             sim.fail("stalled-with-unsent-output", "%s/%s" % (kind, closing if state["closed_by"] else "open"),
                      "%s was given %d bytes, %s received %d, and nothing is in flight or scheduled (closed_by=%s peer_mode=%s %s.read_lost=%d)"
@@ -403,6 +629,13 @@ def _drive(sim, kind, kern, r, now, patt, protos, sf, cf, closing, closer, half,
             else:
                 opts.append(("peer-write", 2))
                 opts.append(("peer-halfclose", 1))
+        if both and stall != "none":
+            if state["phase"] == "open" and can_pause():
+                opts.append(("pause-read", 1))
+            if stall == "random" and (paused["C"] or paused["S"]):
+                opts.append(("resume-read", 1))
+        if escalate == "op" and state["closed_by"] and not state.get("abort_called") and not protos[closer].lost:
+            opts.append(("abort-after-close", 1))
         op = sim.draw_weighted(opts, "op")
         progress_before = (sum(s.sent_total + s.recv_total for s in kern.all), len(kern.all), sum(len(p.lost) for p in protos.values()))
         if op == "iterate":
@@ -419,7 +652,10 @@ def _drive(sim, kind, kern, r, now, patt, protos, sf, cf, closing, closer, half,
             continue
         elif op == "write":
             budget -= 1
-            do_write(sim.draw_choice(["C", "S"], "who"), sim.draw_choice(sizes, "size"), sim.draw_bool(0.3, "seq"))
+            side = sim.draw_choice(["C", "S"], "who")
+            do_write(side, pick_size(side, sizes), sim.draw_bool(0.3, "seq"))
+            if state.get("last_write"):
+                budget = 0
         elif op == "timer-write":
             budget -= 1
             side = sim.draw_choice(["C", "S"], "who")
@@ -429,7 +665,7 @@ def _drive(sim, kind, kern, r, now, patt, protos, sf, cf, closing, closer, half,
         elif op == "close":
             budget = 0
             state["phase"] = "closing"
-            if closing == "lose" and not st["oneway"] and sim.draw_bool(0.4, "close_from_dataReceived"):
+            if closing == "lose" and not st["oneway"] and sim.draw_bool(0.6, "close_from_dataReceived"):
                 # arm: the closer will call loseConnection() from its next dataReceived, with a write of its own still unflushed
                 st["armed"] = True
                 do_write(other[closer], sim.draw_choice(sizes[:5], "size"))
@@ -437,7 +673,14 @@ def _drive(sim, kind, kern, r, now, patt, protos, sf, cf, closing, closer, half,
             else:
                 close_now()
         elif op == "peer-write":
-            do_write(other[closer], sim.draw_choice(sizes[:6], "size"))
+            do_write(other[closer], pick_size(other[closer], sizes[:6]))
+            state["last_write"] = False
+        elif op == "pause-read":
+            pause_read(sim.draw_choice(can_pause(), "who"), sim.draw_bool(0.3, "from_dataReceived"))
+        elif op == "resume-read":
+            resume_read(sim.draw_choice([x for x in ("C", "S") if paused[x]], "who"), "app")
+        elif op == "abort-after-close":
+            abort_now("op")
         elif op == "peer-close":
             peer_close()
         elif op == "peer-halfclose":
@@ -449,6 +692,15 @@ def _drive(sim, kind, kern, r, now, patt, protos, sf, cf, closing, closer, half,
             if timers:
                 t = min(dc.getTime() for dc in timers)
                 if t > now[0]:
+                    # at rest until a timer in the future fires (a delayed write, the closer's timeout): what the transports
+                    # were given so far may not wait for that
+                    idle_rounds += 1
+                    if idle_rounds < 2:
+                        continue
+                    sim.probe("at_rest_with_timer_pending")
+                    if stalled():
+                        idle_rounds = 0
+                        continue
                     now[0] = t
                 idle_rounds = 0
                 continue
@@ -464,6 +716,13 @@ def _drive(sim, kind, kern, r, now, patt, protos, sf, cf, closing, closer, half,
                     close_now()
                     idle_rounds = 0
                     continue
+                if paused["C"] or paused["S"]:
+                    # the applications that stopped reading start again
+                    for x in ("C", "S"):
+                        if paused[x]:
+                            resume_read(x, "idle")
+                    idle_rounds = 0
+                    continue
                 if both and closing == "halfclose" and not state["peer_closed"] and not protos[other[closer]].lost:
                     if peer_mode == "halfclose":
                         peer_halfclose()
@@ -476,8 +735,6 @@ def _drive(sim, kind, kern, r, now, patt, protos, sf, cf, closing, closer, half,
                 break
         else:
             idle_rounds = 0
-    # stop listening, let the port close
-    d = port.stopListening()
     for _ in range(5):
         R.iterate(r)
     _oracle(sim, kind, kern, protos, cf, written, written_at_close, patt, closing, closer, half, state)
@@ -487,7 +744,8 @@ def _oracle(sim, kind, kern, protos, cf, written, wac, patt, closing, closer, ha
     wit = "%s/%s" % (kind, closing)
     sim.check("connected", "C" in protos and "S" in protos and cf.failed is None, wit, "connection was never established: failed=%r protos=%r" % (cf.failed, sorted(protos)))
     other = {"C": "S", "S": "C"}
-    rst = any(k.startswith("rst") for k in sim.faults)
+    rst = _rst_count(sim) > state["rst_before"]
+    aborted = state["aborted"]
     for side in ("C", "S"):
         p = protos[side]
         o = other[side]
@@ -501,7 +759,12 @@ def _oracle(sim, kind, kern, protos, cf, written, wac, patt, closing, closer, ha
     pr = protos[other[closer]]
     if state["closed_by"] is None:
         return
-    if closing == "lose":
+    if aborted:
+        # abortConnection() took effect (first thing, or giving up on an orderly close that had not finished): no delivery is owed
+        # beyond a prefix; the aborting side is told so, the peer sees a reset or - if everything had arrived already - a clean end
+        sim.check("aborter-reason", c.lost[0].check(error.ConnectionAborted) is not None, wit, "aborting side got %s" % c.lost[0].type.__name__)
+        sim.check("abort-peer-not-clean-or-complete", pr.lost[0].check(error.ConnectionLost, error.ConnectionDone) is not None, wit, "peer got %s" % pr.lost[0].type.__name__)
+    elif closing == "lose":
         # everything the closer wrote before loseConnection reaches the peer
         if not rst:
             # (an RST — the peer's own data reaching the already closed socket — legitimately destroys unread data)
@@ -510,9 +773,6 @@ def _oracle(sim, kind, kern, protos, cf, written, wac, patt, closing, closer, ha
         sim.check("closer-reason-clean", c.lost[0].check(error.ConnectionDone) is not None, wit, "closer got %s" % c.lost[0].type.__name__)
         if not rst:
             sim.check("peer-reason-clean", pr.lost[0].check(error.ConnectionDone) is not None, wit, "peer got %s after orderly close (no RST in this run)" % pr.lost[0].type.__name__)
-    elif closing == "abort":
-        sim.check("aborter-reason", c.lost[0].check(error.ConnectionAborted) is not None, wit, "aborting side got %s" % c.lost[0].type.__name__)
-        sim.check("abort-peer-not-clean-or-complete", pr.lost[0].check(error.ConnectionLost, error.ConnectionDone) is not None, wit, "peer got %s" % pr.lost[0].type.__name__)
     else:
         # half-close: closer's bytes all arrive; if peer is half-closeable it is told once and may keep writing
         if not rst:
@@ -538,11 +798,11 @@ def _oracle(sim, kind, kern, protos, cf, written, wac, patt, closing, closer, ha
             for side in ("C", "S"):
                 sim.check("reason-clean-after-halfclose", protos[side].lost[0].check(error.ConnectionDone) is not None, wit,
                           "%s got %s" % (side, protos[side].lost[0].type.__name__))
-    leaked = [s.fd for s in kern.leaked()]
+    leaked = [s.fd for s in kern.leaked() if not s.listening]
     sim.check("no-fd-leak", not leaked, wit, "sockets still open in the kernel model at the end: %r" % leaked)
     io_faults = sum(sim.faults.get(k, 0) for k in ("partial_send", "short_send", "short_recv")) + sim.probes.get("send_eagain", 0) + sim.probes.get("recv_eagain", 0)
     sim.nontrivial = io_faults > 0 and (written["C"] + written["S"]) > 0
-    sim.state((kind, closing, closer, half, rst, min(io_faults, 3), state.get("peer_mode")))
+    sim.state((kind, closing, closer, half, rst, min(io_faults, 3), state.get("peer_mode"), bool(aborted)))
 
 
 def _firstdiff(a, b):
@@ -563,4 +823,9 @@ MUTANTS = [
     "posixbase inRead bookkeeping (seed C15-inread-bookkeeping) -> CAUGHT (stalled-with-unsent-output:poll/lose)",
     "abstract.loseConnection while a half-close is pending (seed C15-r2) -> CAUGHT (all-bytes-before-halfclose-delivered:*/halfclose)",
     "abstract.doWrite ignoring parked data (seed C15-r3) -> CAUGHT (all-bytes-before-halfclose-delivered, stalled-with-unsent-output:*/open)",
+    "tcp._AbortingMixin.abortConnection: returns early when loseConnection() is pending and the transport's buffer is empty (seed C15-r5a) -> CAUGHT (aborted-connection-reported:*/lose: "
+    "peer not reading, everything written sits in full kernel buffers, loseConnection then abortConnection from the timeout: connectionLost never called; aborter-reason:*: the "
+    "orderly close finishes instead)",
+    "tcp: IHalfCloseableProtocol looked up once per protocol CLASS in a module-level dict (seed C15-r5b) -> CAUGHT (readConnectionLost-once / writeConnectionLost-once / "
+    "halfclose-peer-bytes-delivered / reason-clean-after-halfclose: a wrapped plain protocol and a wrapped half-closeable one on two connections of one run)",
 ]
